@@ -9,7 +9,9 @@
    The universe of diagnostics is ReportUniverse!Universe.                                    *)
 EXTENDS ReportUniverse, Json
 
-CONSTANTS MaxDiags, ExportMin
+CONSTANTS MaxDiags, ExportMin,
+          CoreExtras    \* lists of three or more diagnostics are built from the "extra" variations in
+                        \* this set only (ExtraDim itself = no restriction); pairs use all of ExtraDim
 
 (* For speed the state holds INDICES into U, the universe sorted by Report!FullLess (evaluated
    once); comparing indices is comparing diagnostics, and the duplicate / tie relations are
@@ -36,6 +38,9 @@ ASSUME \A i \in 1..N : \A j \in {i, IF i < N THEN i + 1 ELSE 1} :
           /\ (j \in TieTab[i]) = DocTie(U[i], U[j])
           /\ (j \in DocLessTab[i]) = DocLess(U[i], U[j])
 
+CoreSet == {Build(v) : v \in {w \in Vec : Distance(w) <= Dist /\ w.extra \in CoreExtras}}
+CoreTab == {i \in 1..N : U[i] \in CoreSet}
+
 Deref(L) == [i \in 1..Len(L) |-> U[L[i]]]
 CanonI(L, keep) == CanonBy(L, ILess, IDup, keep)
 
@@ -45,6 +50,7 @@ Init == idx = <<>>
    quantified over explicitly in the exported case.                                           *)
 Push(i) == /\ Len(idx) < MaxDiags
            /\ IF idx = <<>> THEN TRUE ELSE idx[Len(idx)] <= i
+           /\ Len(idx) >= 2 => (i \in CoreTab /\ \A k \in 1..Len(idx) : idx[k] \in CoreTab)
            /\ idx' = Append(idx, i)
 Next == \E i \in 1..N : Push(i)
 Spec == Init /\ [][Next]_idx
